@@ -572,6 +572,7 @@ func (s *sctx) flavorItem(withInstance bool, role string) Item {
 	var parent *flInfo
 	var parents []string
 	dirtyParent := false
+	included := ""
 	if p := s.fl[s.last]; p != nil && role != "hidden-parent" {
 		switch {
 		case !p.capable && s.want("flavor-parent"):
@@ -583,6 +584,12 @@ func (s *sctx) flavorItem(withInstance bool, role string) Item {
 		}
 		if parent != nil {
 			parents = []string{s.last}
+			if !dirtyParent && r.IntN(4) == 0 {
+				// the same flavor as an included flavor instead of a component:
+				// its variables and methods come in after the components'
+				parents = nil
+				included = s.last
+			}
 			it.Pre = append(it.Pre, s.defs[s.last]...)
 			info.depth = parent.depth
 			for k, v := range parent.hist {
@@ -739,6 +746,9 @@ func (s *sctx) flavorItem(withInstance bool, role string) Item {
 		}
 	default:
 		inittable = mode(":inittable-instance-variables")
+	}
+	if included != "" {
+		opts = append(opts, fmt.Sprintf("(:included-flavors %s)", included))
 	}
 	doc := docOpt(r)
 	s.nflavor++
